@@ -17,9 +17,10 @@ type served struct {
 }
 
 type probeRouter struct {
-	r   *fox.Router
-	got *served
-	w   *nullWriter
+	r         *fox.Router
+	got       *served
+	w         *nullWriter
+	inHandler func() // optional: runs inside every handler
 }
 
 // newProbeRouter builds a router whose handlers record what ran.
@@ -32,6 +33,9 @@ func newProbeRouter(opts ...fox.GlobalOption) *probeRouter {
 			p.got.pattern = c.Pattern()
 			p.got.params = collectParams(c)
 			p.got.scope = c.Scope()
+			if p.inHandler != nil {
+				p.inHandler()
+			}
 			c.Writer().WriteHeader(code)
 		}
 	}
@@ -229,6 +233,27 @@ func SetupC07Pair() any {
 				}
 			}
 		}
+	case 10: // an aborted caching transaction that registers every unregistered prefix and a route right below it
+		insertAll()
+		txn := b.r.Txn(true)
+		for i, rt := range set.Routes {
+			m := methodOf(i)
+			for cut := 1; cut <= len(rt.Pattern); cut++ {
+				if !(cut < len(rt.Pattern) && rt.Pattern[cut] == '/') && rt.Pattern[cut-1] != '/' {
+					continue
+				}
+				pre := rt.Pattern[:cut]
+				if txn.Has(m, pre) {
+					continue
+				}
+				if _, err := txn.Handle(m, pre, b.handler()); err != nil {
+					continue
+				}
+				_, _ = txn.Handle(m, pre+"zq", b.handler())
+				_, _ = txn.Handle(m, pre+"/zq", b.handler())
+			}
+		}
+		txn.Abort()
 	default:
 		panic("unknown history")
 	}
@@ -238,7 +263,7 @@ func SetupC07Pair() any {
 	return st
 }
 
-const nC07Hist = 10
+const nC07Hist = 11
 
 var c07Methods = []string{"GET", "POST", "DELETE", "OPTIONS"}
 
